@@ -53,13 +53,27 @@ func (t *treeCanon) String() string {
 	return strings.Join(l, "\n")
 }
 
-func opStr(fn model.FunctionType, r, w bool) string {
+// treeShowPartial: render the "partial" marks of announced operations (scenarios whose peers
+// announce them; a local feature derives them from its function data, which the harness's record
+// of the local tree does not model). Reset at the start of every run.
+var treeShowPartial bool
+
+func opStr(fn model.FunctionType, r, w bool, partial ...bool) string {
+	if !treeShowPartial {
+		partial = nil
+	}
 	s := string(fn) + ":"
 	if r {
 		s += "R"
+		if len(partial) > 0 && partial[0] {
+			s += "p"
+		}
 	}
 	if w {
 		s += "W"
+		if len(partial) > 1 && partial[1] {
+			s += "p"
+		}
 	}
 	return s
 }
@@ -92,7 +106,7 @@ func TreeOfPeerModel(p *Peer) string {
 		for _, f := range e.Feats {
 			tf := treeFeat{ent: fmtUints(e.Addr), id: f.ID, typ: string(f.Type), role: string(f.Role), desc: f.Desc}
 			for _, fn := range f.Funcs {
-				tf.ops = append(tf.ops, opStr(fn.Fn, fn.R, fn.W))
+				tf.ops = append(tf.ops, opStr(fn.Fn, fn.R, fn.W, fn.R && f.Partial[fn.Fn][0], fn.W && f.Partial[fn.Fn][1]))
 			}
 			t.feats = append(t.feats, tf)
 		}
@@ -150,7 +164,7 @@ func TreeOfDiscoveryData(dd *model.NodeManagementDetailedDiscoveryDataType) stri
 			}
 			r := sf.PossibleOperations != nil && sf.PossibleOperations.Read != nil
 			w := sf.PossibleOperations != nil && sf.PossibleOperations.Write != nil
-			tf.ops = append(tf.ops, opStr(*sf.Function, r, w))
+			tf.ops = append(tf.ops, opStr(*sf.Function, r, w, r && sf.PossibleOperations.Read.Partial != nil, w && sf.PossibleOperations.Write.Partial != nil))
 		}
 		t.feats = append(t.feats, tf)
 	}
@@ -180,7 +194,7 @@ func TreeOfRemoteView(rd api.DeviceRemoteInterface) string {
 				tf.desc = string(*f.Description())
 			}
 			for fn, op := range f.Operations() {
-				tf.ops = append(tf.ops, opStr(fn, op.Read(), op.Write()))
+				tf.ops = append(tf.ops, opStr(fn, op.Read(), op.Write(), op.ReadPartial(), op.WritePartial()))
 			}
 			// every listed feature resolves through the device by its address
 			if back := rd.FeatureByAddress(f.Address()); back != f {
